@@ -327,6 +327,7 @@ func runDocCatalogue(c *Ctx, genName string, opts []option, t int, check func(do
 		}
 		nt := false
 		for _, pol := range []mcrt.Policy{mcrt.Asc, mcrt.Desc} {
+			c.Begin(&Violation{Signature: "fatal crash of the process", Generator: genName, Input: J{"doc": json.RawMessage(dj), "plants": labels}, Env: J{"policy": int(pol)}})
 			sig, what, nontrivial, outcome := check(dj, pol)
 			if outcome == "" && sig == "" {
 				c.Count("not_loadable", 1)
